@@ -9,6 +9,12 @@ package memory
 // UUIDs; Inv(m) says that they agree with the master map at all times. The spec functions
 // su/ppu/pu/ou/tu and the axiom tu-components live in /verif/spec/uuid.spec.
 
+// Lock discipline, access by access (C07): the index maps of a graph and the graph table of the store
+// are read only while the object's rwmu is held and written only while it is write-held.
+//@ props C07 C08
+//@ guard memory by rwmu: idx idxS idxP idxO idxSP idxPO idxSO
+//@ guard memoryStore by rwmu: graphs
+
 //@ spec macro kS(t *triple.Triple) String = su(t.s)
 //@ spec macro kP(t *triple.Triple) String = ppu(t.p)
 //@ spec macro kO(t *triple.Triple) String = ou(t.o)
